@@ -16,6 +16,11 @@ VERIF = os.path.dirname(os.path.dirname(os.path.abspath(__file__)))
 REPO = os.environ.get('PEG_REPO', '/repo')
 LEAN = os.path.join(VERIF, 'lean')
 CACHE = os.path.join(VERIF, '.cache')
+# Build output of the scratch modules (hundreds of generated parsers per check) goes to a Go build cache of our own, inside the
+# ignored .cache directory, where it can be measured and removed — not to the user's cache, which it would fill by gigabytes per run.
+GOCACHE_DIR = os.path.join(CACHE, 'gocache')
+os.environ['GOCACHE'] = GOCACHE_DIR
+GOCACHE_LIMIT_MB = 8000
 GOENV = dict(os.environ, GOFLAGS='-mod=mod', GOPROXY='off')
 GOENV.pop('GOTOOLCHAIN', None)
 GOENV.pop('GOSUMDB', None)
@@ -84,6 +89,24 @@ def repo_hash():
     return h.hexdigest()[:20]
 
 
+def trim_gocache():
+    """Remove our Go build cache when it has grown past the limit (not while another check is running from it)."""
+    try:
+        os.makedirs(GOCACHE_DIR, exist_ok=True)
+        p = subprocess.run(['du', '-sm', GOCACHE_DIR], capture_output=True, text=True, timeout=120)
+        mb = int(p.stdout.split()[0])
+        if mb <= GOCACHE_LIMIT_MB:
+            return
+        others = subprocess.run(['pgrep', '-f', os.path.join(VERIF, 'bin', 'check')], capture_output=True, text=True).stdout.split()
+        if [x for x in others if x != str(os.getpid())]:
+            return
+        subprocess.run(['go', 'clean', '-cache'], env=GOENV, capture_output=True, text=True, timeout=600)
+        shutil.rmtree(GOCACHE_DIR, ignore_errors=True)
+        os.makedirs(GOCACHE_DIR, exist_ok=True)
+    except Exception:
+        pass
+
+
 class Tools:
     """peg binary, pegx (real front end + generator in-process), pegmodel (Lean)."""
 
@@ -101,6 +124,7 @@ class Tools:
                     shutil.rmtree(os.path.join(CACHE, d), ignore_errors=True)
         except OSError:
             pass
+        trim_gocache()
         self.peg = os.path.join(self.dir, 'peg')
         self.pegx = os.path.join(self.dir, 'pegx')
         self.pegmodel = os.path.join(LEAN, '.lake', 'build', 'bin', 'pegmodel')
